@@ -100,6 +100,20 @@ pub fn gen(o: &Opts, sink: &mut dyn FnMut(Vec<i64>, String)) {
             }
         }
     }
+    // MANY overruns on one runtime (9..14 bursts beyond the capacity, the handler running in between): every overrun is
+    // survived like the first, the closing stop-all is processed
+    for nn in [1i64, 2] {
+        for nbursts in [9usize, 10, 14] {
+            for size in [17usize, 40] {
+                let mut c = vec![nn];
+                let mut v = 100i64;
+                c.push(4);                               // the handlers run freely
+                for _ in 0..nbursts { for _ in 0..size { c.extend([1, v]); v += 1; } c.push(3); }
+                c.extend([1, -1]); c.push(3); c.push(4);
+                put!(c);
+            }
+        }
+    }
     // a client session as producer: long bursts of accepted commands ending in stop-all all reach the bus
     for burst in [15usize, 16, 17, 40, 100] {
         let mut frames: Vec<crate::sessgen::F> = vec![(0x10, vec![0x00, b'c'])];
